@@ -136,6 +136,9 @@ func ruleC09(c *Ctx, r *Report) {
 					okGuard = true
 				}
 			}
+			if !okGuard && cc.dataParam >= 0 && cc.dataParam < len(cc.fn.Params) && !valueDependsOn(f.Cond, cc.fn.Params[cc.dataParam], 0) {
+				okGuard = true // a test that does not look at the data (e.g. on the key)
+			}
 			if !okGuard {
 				bad = append(bad, describeCond(f.Cond)+" at "+c.InstrPos(f.If))
 			}
@@ -906,4 +909,24 @@ func keysetConstantsRule(c *Ctx, r *Report, enc *ssa.Function, rule string) {
 	r.Check(len(bad) == 0, rule, kf.Name()+":keyset-is-a-function-of-the-key", c.Pos(kf.Pos()),
 		"key id, primary key id and version are constants, the output prefix type is RAW, the key material is the parameter itself: the primitive depends on the key alone",
 		strings.Join(bad, "; "))
+}
+
+// valueDependsOn: src is among the (transitive) operands of v.
+func valueDependsOn(v, src ssa.Value, depth int) bool {
+	if v == src {
+		return true
+	}
+	if depth > 8 {
+		return false
+	}
+	in, ok := v.(ssa.Instruction)
+	if !ok {
+		return false
+	}
+	for _, op := range in.Operands(nil) {
+		if *op != nil && valueDependsOn(*op, src, depth+1) {
+			return true
+		}
+	}
+	return false
 }
